@@ -1314,7 +1314,13 @@ impl World {
                 let total_unacked: usize = self.subs.iter().filter(|s| s.alive).map(|s| s.sent.len() - s.acked_good.len()).sum();
                 let alive = self.subs.iter().filter(|s| s.alive).count();
                 let acked_in_flight = self.outstanding.iter().any(|o| o.acks.iter().any(|a| a.0 == sub.id && a.1 == seq));
-                if which != "unknown" && which != "acked" && sub.alive && sub.sent.contains_key(&seq) && !sub.acked_good.contains(&seq) && !acked_in_flight && !sub.evictable.contains(&seq) {
+                // the subscription may have expired already without the client knowing yet (the status
+                // change is only delivered with the next publish response)
+                let may_have_expired = st == StatusCode::BadSubscriptionIdInvalid && self.now_ms() - sub.last_lifetime_reset_ms + 2 * TICK_MS >= (sub.lt as u64).saturating_sub(1) * (sub.pi_ms as u64);
+                if may_have_expired {
+                    ctx.probe("republish_on_possibly_expired_subscription");
+                }
+                if !may_have_expired && which != "unknown" && which != "acked" && sub.alive && sub.sent.contains_key(&seq) && !sub.acked_good.contains(&seq) && !acked_in_flight && !sub.evictable.contains(&seq) {
                     ctx.violate(
                         "C40",
                         "republish-unavailable",
